@@ -863,10 +863,9 @@ export class ConstRuntype extends BaseRuntype {
       case "string":
         return generateHashFromString(this.value);
       case "number":
-        // generateHashFromNumbers truncates to 32-bit integers: 1.5 would hash like 1
-        return Number.isInteger(this.value)
-          ? generateHashFromNumbers([this.value])
-          : generateHashFromString(`number:${this.value}`);
+        // not generateHashFromNumbers([value]): it maps n to n itself (0 like the empty string, 97
+        // like "a") and truncates fractions (1.5 like 1)
+        return generateHashFromString(`number:${this.value}`);
       case "boolean":
         // not the hash of the string "true" / "false" (the literal types true and "true" differ), and
         // not an affine function of booleanHash either (it would cancel against boolean siblings)
